@@ -62,6 +62,14 @@ def specs():
     S.append(["list", [["Var", "X"]]])
     S.append(["list", [["Constant", "a"]]])
     S.append(["list", [["Term", "a"]]])
+    # operator terms: the parser keeps operator information (they print infix), the constructors do not (they print in functional
+    # notation) - the same term with two printed forms
+    for op, txt in (("'+'", "a+b"), ("'-'", "a-b"), ("'='", "a=b"), ("'*'", "a*b")):
+        S.append(["parse", "f(%s)" % txt])
+        S.append(["Term", "f", [["Term", op, ab]]])
+        S.append(["parse", "f(%s(a,b))" % op])
+    S.append(["parse", "[a+b,c]"])
+    S.append(["list", [["Term", "'+'", ab], ["Term", "c"]]])
     # floats that differ only beyond the precision ProbLog keeps (Constant rounds to 15 decimals): constructor, parser, nested
     for v in (0.1 + 0.2, 0.3, 1.1 * 3, 3.3, 4.35 * 100, 435.0, 1e-17, 0.0):
         S.append(["Constant", v])
